@@ -28,6 +28,7 @@ import (
 	"math"
 	"os"
 	"path/filepath"
+	"reflect"
 	"runtime"
 	"sort"
 	"strings"
@@ -204,10 +205,19 @@ func c11GenCases(r *Rng, n int) []*c11Case {
 	return out
 }
 
+// c11CacheOpts copies the same-named fields by reflection, so that adding or removing a key field in
+// the repository does not break the harness build (the key's contents are C05's subject, not this tool's).
 func c11CacheOpts(o database.SearchOptions) cache.SearchOptions {
-	return cache.SearchOptions{Limit: o.Limit, ContextBoosts: o.ContextBoosts, PipelineOnly: o.PipelineOnly, PipelineBoost: o.PipelineBoost,
-		UseFuzzy: o.UseFuzzy, FuzzyThreshold: o.FuzzyThreshold, UseNLP: o.UseNLP, TopTermsCap: o.TopTermsCap,
-		AllPlatforms: o.AllPlatforms, Platforms: o.Platforms, NoCrossPlatform: o.NoCrossPlatform}
+	var c cache.SearchOptions
+	src := reflect.ValueOf(o)
+	dst := reflect.ValueOf(&c).Elem()
+	for i := 0; i < dst.NumField(); i++ {
+		f := src.FieldByName(dst.Type().Field(i).Name)
+		if f.IsValid() && f.Type().AssignableTo(dst.Field(i).Type()) {
+			dst.Field(i).Set(f)
+		}
+	}
+	return c
 }
 
 func c11Conv(db *database.Database, rs []database.SearchResult) []c11Res {
